@@ -88,11 +88,15 @@ def build(sanitize=False):
 NUMBER_SPELLINGS = {"int": "%d ", "point": "%.1f ", "exp": "%.7e ", "wide": "%6d "}   # the loader reads the entries with %lf
 
 
-def write_inputs(d, st, eq, wc, start=None, spelling="int"):
+def write_inputs(d, st, eq, wc, start=None, spelling="int", trail=0):
     """the three files exactly as design/spurious_design.py writes them ("%d " per entry, raw template
     characters, no newline); `start` (optional) is an initial sequence file for `sequence=`."""
     paths = {"st": os.path.join(d, "x.st"), "eq": os.path.join(d, "x.eq"), "wc": os.path.join(d, "x.wc")}
     fmt = NUMBER_SPELLINGS[spelling]
+    if trail:
+        # entries for trailing blanks in all three files (template ends in ' ', eq in 0, wc in -1): the loader documents that it drops
+        # them, so this is the same triple
+        st, eq, wc = list(st) + [" "] * trail, list(eq) + [0] * trail, list(wc) + [-1] * trail
     with open(paths["eq"], "w") as f:
         for x in eq:
             f.write(fmt % x)
@@ -116,11 +120,11 @@ def command_line(exe, paths, opts):
     return cmd + list(opts)
 
 
-def run_ssm(st, eq, wc, opts, seed, sanitize=False, start=None, timeout=20.0, spelling="int"):
+def run_ssm(st, eq, wc, opts, seed, sanitize=False, start=None, timeout=20.0, spelling="int", trail=0):
     """-> (rc, stdout, stderr, trace_lines, timed_out).  rc is None when the run was killed."""
     exe = build(sanitize)
     with core.scratch("pepper_ssm_") as d:
-        paths = write_inputs(d, st, eq, wc, start, spelling)
+        paths = write_inputs(d, st, eq, wc, start, spelling, trail)
         trace = os.path.join(d, "trace.txt")
         env = dict(os.environ)
         env[core.GUARD] = "1"
